@@ -126,6 +126,39 @@ theorem normalDiag_partial [DecidableEq ι] (mu invc : ι → ℝ) (c : ℝ) (x 
 theorem bounded_isGrad (m mb : (ι → ℝ) → ℝ) (g x : ι → ℝ) (h : IsGradAt m g x)
     (hloc : mb =ᶠ[nhds x] m) : IsGradAt mb g x := h.congr_of_eventuallyEq hloc
 
+/-! ### AdditiveDistribution / BayesRule as a list that can grow (`add_distribution`) -/
+
+/-- misfit of an additive distribution with the given list of terms -/
+def additiveM (terms : List (((ι → ℝ) → ℝ) × (ι → ℝ))) : (ι → ℝ) → ℝ := fun y => (terms.map (fun t => t.1 y)).sum
+/-- its gradient: the sum of the terms' gradients -/
+def additiveG (terms : List (((ι → ℝ) → ℝ) × (ι → ℝ))) : ι → ℝ := (terms.map (fun t => t.2)).sum
+
+/-- the gradient of an additive distribution is the derivative of its misfit for **every** list of
+    terms — however the list was assembled (constructor, then any number of `add_distribution`) -/
+theorem additive_isGrad (terms : List (((ι → ℝ) → ℝ) × (ι → ℝ))) (x : ι → ℝ)
+    (h : ∀ t ∈ terms, IsGradAt t.1 t.2 x) : IsGradAt (additiveM terms) (additiveG terms) x := by
+  induction terms with
+  | nil =>
+    have : additiveM ([] : List (((ι → ℝ) → ℝ) × (ι → ℝ))) = fun _ => (0:ℝ) := by funext y; simp [additiveM]
+    rw [this]; simpa [additiveG] using (IsGradAt.const (x := x) 0)
+  | cons t rest ih =>
+    have h1 := h t (List.mem_cons_self)
+    have h2 := ih (fun t' ht' => h t' (List.mem_cons_of_mem _ ht'))
+    have := h1.add h2
+    have e : additiveM (t :: rest) = fun y => t.1 y + additiveM rest y := by funext y; simp [additiveM]
+    rw [e]; simpa [additiveG] using this
+
+/-- `add_distribution`: after appending a term, the gradient must include it -/
+theorem additive_after_add (terms : List (((ι → ℝ) → ℝ) × (ι → ℝ))) (t : ((ι → ℝ) → ℝ) × (ι → ℝ)) (x : ι → ℝ)
+    (h : ∀ t' ∈ terms, IsGradAt t'.1 t'.2 x) (ht : IsGradAt t.1 t.2 x) :
+    IsGradAt (additiveM (terms ++ [t])) (additiveG terms + t.2) x := by
+  have := additive_isGrad (terms ++ [t]) x (by
+    intro t' ht'
+    rcases List.mem_append.mp ht' with h1 | h1
+    · exact h t' h1
+    · simp at h1; subst h1; exact ht)
+  simpa [additiveG, List.map_append, List.sum_append] using this
+
 /-! ### non-vacuity -/
 example : ∀ i : Fin 2, (![1, 2] : Fin 2 → ℝ) i ≠ (![0, 0] : Fin 2 → ℝ) i := by
   intro i; fin_cases i <;> simp
